@@ -45,28 +45,51 @@ func firstLine(s string) string {
 // runSolvers races the solvers on a query file. If all is set, every solver is run to completion
 // (cross-check): the result is unsat only if none says sat and at least one says unsat.
 func runSolvers(file string, timeoutS int, all bool, skipCvc5 bool) solveResult {
+	return runSolversV([]string{file}, timeoutS, all, skipCvc5)
+}
+
+// runSolversV races the solvers over several variants of the same obligation (the full query and
+// weakened ones with fewer hypotheses): unsat on any variant discharges the obligation; sat is
+// only believed on the first (full) variant.
+func runSolversV(files []string, timeoutS int, all bool, skipCvc5 bool) solveResult {
 	type one struct {
 		name, res, out string
 		ms             int64
 	}
 	ctx, cancel := context.WithCancel(context.Background())
 	defer cancel()
-	ch := make(chan one, len(solvers))
+	ch := make(chan one, len(solvers)*len(files))
 	n := 0
-	for _, s := range solvers {
-		if skipCvc5 && s.name == "cvc5" {
-			continue
+	for vi, file := range files {
+		for _, s := range solvers {
+			if skipCvc5 && s.name == "cvc5" {
+				continue
+			}
+			if vi > 0 && s.name == "z3" {
+				continue // variants: newest z3 and cvc5 only
+			}
+			if vi == 1 && len(files) > 2 && s.name == "cvc5" {
+				continue
+			}
+			n++
+			go func(s solver, file string, vi int) {
+				a := s.args(file, timeoutS)
+				t0 := time.Now()
+				c, cancel2 := context.WithTimeout(ctx, time.Duration(timeoutS+2)*time.Second)
+				defer cancel2()
+				cmd := exec.CommandContext(c, a[0], a[1:]...)
+				out, _ := cmd.CombinedOutput()
+				r := firstLine(string(out))
+				name := s.name
+				if vi > 0 {
+					name += fmt.Sprintf("/light%d", vi)
+					if r == "sat" {
+						r = "unknown" // a weakened variant cannot refute
+					}
+				}
+				ch <- one{name, r, string(out), time.Since(t0).Milliseconds()}
+			}(s, file, vi)
 		}
-		n++
-		go func(s solver) {
-			a := s.args(file, timeoutS)
-			t0 := time.Now()
-			c, cancel2 := context.WithTimeout(ctx, time.Duration(timeoutS+2)*time.Second)
-			defer cancel2()
-			cmd := exec.CommandContext(c, a[0], a[1:]...)
-			out, _ := cmd.CombinedOutput()
-			ch <- one{s.name, firstLine(string(out)), string(out), time.Since(t0).Milliseconds()}
-		}(s)
 	}
 	res := solveResult{result: "unknown", all: map[string]string{}}
 	var outs []string
@@ -125,7 +148,19 @@ func (g *Gen) discharge(obls []*Obligation, workDir string, timeoutS int, all bo
 				o.Result, o.Backend, o.Ms, o.Output = r.result, r.backend, r.ms, r.output
 				return
 			}
-			r := runSolvers(fn, timeoutS, all && !o.Cover, skipCvc5)
+			files := []string{fn}
+			if o.Raw == "" {
+				for k := 1; k <= 2; k++ {
+					lq := o.queryV(g, false, k)
+					if lq == files2last(files, q) {
+						continue
+					}
+					lf := strings.TrimSuffix(fn, ".smt2") + fmt.Sprintf(".light%d.smt2", k)
+					os.WriteFile(lf, []byte(lq), 0o644)
+					files = append(files, lf)
+				}
+			}
+			r := runSolversV(files, timeoutS, all && !o.Cover, skipCvc5)
 			if r.result != "unsat" && o.Raw == "" {
 				// candidate counterexample search in the integer-carrier interpretation
 				cf := strings.TrimSuffix(fn, ".smt2") + ".cex.smt2"
@@ -213,4 +248,43 @@ func cexQuery(q string) string {
 		s = s[:i] + bvLit(v, 64) + s[i+j+1:]
 	}
 	return s
+}
+
+// lightQueries returns weakened variants of a query (fewer hypotheses, hence still proofs when
+// unsat): (1) without the quantified valid(...) facts that mention the float carriers,
+// (2) additionally without the global carrier / bridge axioms. They are raced with the full query
+// because those quantified hypotheses, though rarely needed, derail instantiation.
+func lightQueries(q string) []string {
+	var l1, l2 []string
+	d1, d2 := false, false
+	for _, l := range strings.Split(q, "\n") {
+		isValidFact := strings.HasPrefix(l, "(assert (forall ((q$") && (strings.Contains(l, "toF64") || strings.Contains(l, "fromF_"))
+		isAxiom := strings.HasPrefix(l, "(assert (forall ((y (_ BitVec") || strings.HasPrefix(l, "(assert (forall ((x (_ BitVec") || strings.HasPrefix(l, "(assert (forall ((n Int)) (! (= (bv2i64")
+		if isValidFact {
+			d1 = true
+			continue
+		}
+		l1 = append(l1, l)
+		if isAxiom {
+			d2 = true
+			continue
+		}
+		l2 = append(l2, l)
+	}
+	var out []string
+	if d1 {
+		out = append(out, strings.Join(l1, "\n"))
+	}
+	if d2 {
+		out = append(out, strings.Join(l2, "\n"))
+	}
+	return out
+}
+
+func files2last(files []string, q string) string {
+	if len(files) == 1 {
+		return strings.Replace(q, "", "", 0)
+	}
+	b, _ := os.ReadFile(files[len(files)-1])
+	return string(b)
 }
